@@ -56,7 +56,8 @@ type Runner struct {
 	cut            map[[2]string]bool
 	refuse         bool // cuts fail fast instead of black-holing
 	lossy          bool
-	dropAppendAcks bool // acknowledgements of AppendEntries that carry entries are lost (inheritedtail macro)
+	flakyReads     map[string]*flakyRead // server id -> window of failing log reads
+	dropAppendAcks bool                  // acknowledgements of AppendEntries that carry entries are lost (inheritedtail macro)
 	quiet          bool
 	faults         []*faultSpec
 	Feat           map[string]int
@@ -173,6 +174,12 @@ func (r *Runner) Setup() {
 		}
 	}
 	w.FaultPlan = r.faultPlan
+	w.ReadFault = r.readFault
+	w.ReadFaultActive = func(in *sim.Instance) bool {
+		f := r.flakyReads[in.ID()]
+		return f != nil && !r.quiet && f.left > 0
+	}
+	r.flakyReads = map[string]*flakyRead{}
 	w.Net.Policy = r.policy
 	r.lossy = p.Lossy
 	for i := 0; i < p.N; i++ {
@@ -282,6 +289,28 @@ func (r *Runner) policy(m *sim.Msg, resp bool) sim.Verdict {
 		r.feat("msg-delayed-long")
 		return sim.VHold
 	}
+}
+
+// (a budget of reads, not a time window: code that retries a failed read at once
+// would otherwise spin for ever at one virtual instant)
+type flakyRead struct {
+	left int // eligible reads still subject to the fault
+	odds int // of 8
+}
+
+// readFault (called under W.Mu): inside a server's flaky window a log read at
+// a site where raft handles the error fails with the drawn odds.
+func (r *Runner) readFault(in *sim.Instance, site string, index uint64) bool {
+	f := r.flakyReads[in.ID()]
+	if f == nil || r.quiet || f.left <= 0 {
+		return false
+	}
+	f.left--
+	if int(r.tape())%8 < f.odds {
+		r.feat("log-read-error@" + site)
+		return true
+	}
+	return false
 }
 
 func (r *Runner) faultPlan(op *sim.DiskOp) sim.Decision {
